@@ -43,7 +43,14 @@ func genVectorRecs(r *vk.RNG, steps int, perStep int) []Rec {
 					}
 				}
 			}
-			if twins && i < 2 {
+			if twins && i < 2 && sep == " " {
+				// ... and two sets that read the same when a map is printed without quoting: a="x b:y" / a="x", b="y"
+				if i == 0 {
+					l = map[string]string{"job": "j", "a": "x b:y"}
+				} else {
+					l = map[string]string{"job": "j", "a": "x", "b": "y"}
+				}
+			} else if twins && i < 2 {
 				// two label sets that coincide under any framing that joins names and values with the
 				// separator sep: a=x<sep>b<sep>y,b=z and a=x,b=y<sep>b<sep>z
 				if i == 0 {
